@@ -26,3 +26,80 @@
             let b = bank_at(defs, k);
             b.fill && b.size is Some && b.size->0 > 0 && b.output_offset is Some ==> len >= b.output_offset->0 + b.size->0
         }
+
+        // ---- composition of the checks (C06): what build_output's result satisfies
+        pub open spec fn span_in(sp: util::BitVecSpan, x: nat) -> bool { sp.offset is Some && sp.offset->0 <= x < sp.offset->0 + sp.size }
+        /// bit x lies inside one of the first n recorded items
+        pub open spec fn spans_cover(ss: Seq<util::BitVecSpan>, n: int, x: nat) -> bool decreases n {
+            n > 0 && (spans_cover(ss, n - 1, x) || span_in(ss[n - 1], x))
+        }
+        /// "no two emitted items occupy the same output bit"
+        pub open spec fn items_disjoint(ss: Seq<util::BitVecSpan>) -> bool {
+            forall|i: int, j: int| 0 <= i < j < ss.len() && ss[i].offset is Some && ss[j].offset is Some ==>
+                !overlaps(ss[i].offset->0 as int, ss[i].size as int, ss[j].offset->0 as int, ss[j].size as int)
+        }
+        /// "every bit not written by an item is zero"
+        pub open spec fn set_bits_inside_items(v: int, ss: Seq<util::BitVecSpan>) -> bool {
+            forall|x: nat| #[trigger] bit_of(v, x) ==> spans_cover(ss, ss.len() as int, x)
+        }
+        pub open spec fn stored(view: Seq<(int, int)>, p: int, s: int) -> bool { exists|k: int| 0 <= k < view.len() && #[trigger] view[k] == (p, s) }
+        /// every recorded item that occupies bits is an entry of the overlap checker
+        pub open spec fn sized_items_stored(ss: Seq<util::BitVecSpan>, view: Seq<(int, int)>) -> bool {
+            forall|i: int| 0 <= i < ss.len() && (#[trigger] ss[i]).offset is Some && ss[i].size > 0 ==> stored(view, ss[i].offset->0 as int, ss[i].size as int)
+        }
+        pub proof fn lemma_spans_cover_prefix(a: Seq<util::BitVecSpan>, b: Seq<util::BitVecSpan>, n: int, x: nat)
+            requires 0 <= n <= a.len(), n <= b.len(), forall|k: int| 0 <= k < n ==> a[k] == b[k]
+            ensures spans_cover(a, n, x) == spans_cover(b, n, x)
+            decreases n
+        {
+            if n > 0 { lemma_spans_cover_prefix(a, b, n - 1, x); }
+        }
+        pub proof fn lemma_spans_cover_push(ss: Seq<util::BitVecSpan>, sp: util::BitVecSpan)
+            ensures forall|x: nat| #[trigger] spans_cover(ss.push(sp), ss.len() as int + 1, x) == (spans_cover(ss, ss.len() as int, x) || span_in(sp, x))
+        {
+            assert forall|x: nat| #[trigger] spans_cover(ss.push(sp), ss.len() as int + 1, x) == (spans_cover(ss, ss.len() as int, x) || span_in(sp, x)) by {
+                lemma_spans_cover_prefix(ss.push(sp), ss, ss.len() as int, x);
+            }
+        }
+        pub proof fn lemma_stored_insert(view: Seq<(int, int)>, k: int, e: (int, int))
+            requires 0 <= k <= view.len()
+            ensures stored(view.insert(k, e), e.0, e.1),
+                    forall|p: int, s: int| stored(view, p, s) ==> stored(view.insert(k, e), p, s)
+        {
+            let nv = view.insert(k, e);
+            assert(nv[k] == e);
+            assert forall|p: int, s: int| stored(view, p, s) implies stored(view.insert(k, e), p, s) by {
+                let j = choose|j: int| 0 <= j < view.len() && #[trigger] view[j] == (p, s);
+                if j < k { assert(nv[j] == (p, s)); } else { assert(nv[j + 1] == (p, s)); }
+            }
+        }
+        /// a new item that the checker accepted is disjoint from every recorded item
+        pub proof fn lemma_new_item_disjoint(ss: Seq<util::BitVecSpan>, chk: &util::OverlapChecker, p: int, s: int)
+            requires sized_items_stored(ss, chk.view()), chk.no_overlap_with(p, s)
+            ensures forall|i: int| 0 <= i < ss.len() && (#[trigger] ss[i]).offset is Some ==> !overlaps(ss[i].offset->0 as int, ss[i].size as int, p, s)
+        {
+            assert forall|i: int| 0 <= i < ss.len() && (#[trigger] ss[i]).offset is Some implies !overlaps(ss[i].offset->0 as int, ss[i].size as int, p, s) by {
+                if ss[i].size > 0 {
+                    let k = choose|k: int| 0 <= k < chk.view().len() && #[trigger] chk.view()[k] == (ss[i].offset->0 as int, ss[i].size as int);
+                    assert(!overlaps(p, s, chk.entries@[k].position as int, chk.entries@[k].size as int));
+                }
+            }
+        }
+
+
+        pub proof fn lemma_stored_mono(view: Seq<(int, int)>, nv: Seq<(int, int)>)
+            requires nv == view || exists|k: int, p: int, s: int| 0 <= k <= view.len() && nv == #[trigger] view.insert(k, (p, s))
+            ensures forall|p: int, s: int| stored(view, p, s) ==> stored(nv, p, s)
+        {
+            if nv != view {
+                let (k, p, s) = choose|k: int, p: int, s: int| 0 <= k <= view.len() && nv == #[trigger] view.insert(k, (p, s));
+                lemma_stored_insert(view, k, (p, s));
+            }
+        }
+        pub proof fn lemma_inserted_is_stored(view: Seq<(int, int)>, nv: Seq<(int, int)>, p: int, s: int)
+            requires exists|k: int| 0 <= k <= view.len() && nv == #[trigger] view.insert(k, (p, s))
+            ensures stored(nv, p, s)
+        {
+            let k = choose|k: int| 0 <= k <= view.len() && nv == #[trigger] view.insert(k, (p, s));
+            lemma_stored_insert(view, k, (p, s));
+        }
